@@ -40,7 +40,7 @@ def far_cases(rng, p):
     return out
 
 
-def run(ctx, out, cases, project, truth_project, label, nontrivial):
+def run(ctx, out, cases, project, truth_project, label, nontrivial, also=None):
     """cases: list of (src, Rendered). project(notes list of one track) / truth_project(truth list) must be comparable."""
     a, b = common.run_charts([(R.text, None) for _, R in cases])
     for (src, R), x, y in zip(cases, a, b):
@@ -54,6 +54,8 @@ def run(ctx, out, cases, project, truth_project, label, nontrivial):
             if dy["err"] != dx["err"]:
                 out.corr_mismatch("chart status", rp, impl=dx["err"], model=common.status(dy))
             continue
+        if also is not None:
+            also(dx, src, R, rp)
         px = {k: project(v["notes"]) for k, v in dx["tracks"].items()}
         py = {k: project(v["notes"]) for k, v in dy["tracks"].items()} if dy["err"] is None else dy["err"]
         pt = {k: truth_project(v) for k, v in tr.items()}
